@@ -185,6 +185,11 @@ def _alias_rule(ctx, pkg):
         parts = list(v[3])
     elif v[0] == "fstr" or (v[0] == "binop" and v[1] == "Add"):
         parts = [p[1] if p[0] == "fmt" else p for p in _concat_parts(v)]
+    elif v[0] == "join" and v[1] == ("const", "") and v[2][0] in ("list", "tuple") and not any(e[0] == "star" for e in v[2][1]):
+        parts = list(v[2][1])                       # "".join([a, b, c])
+    elif v[0] == "binop" and v[1] == "Mod" and v[2][0] == "const" and isinstance(v[2][1], str) and re.fullmatch(r"(%s)+", v[2][1]) \
+            and v[3][0] == "tuple" and len(v[3][1]) == v[2][1].count("%s"):
+        parts = list(v[3][1])                       # "%s%s%s" % (a, b, c)
     if not parts or len(parts) < 3:
         ctx.unrec("R6", "Species.alias", (SP, st[0].line), f"alias is not <phase><basename><charge suffix>: {show(v)[:100]}")
         return out
@@ -1572,3 +1577,15 @@ BENIGN += [{"name": "index-loop-over-a-named-sequence", "file": MACROS, "old": "
             "new": '{% set members = network.species %}\n{% for spec in members %}\n#define IDX_{{ spec.alias }} {{ loop.index0 }}'}]
 MUTANTS += [{"name": "index-loop-over-a-named-filtered-sequence", "file": MACROS, "old": "{% for spec in network.species %}\n#define IDX_{{ spec.alias }} {{ loop.index0 }}",
              "new": '{% set members = network.species | rejectattr("is_grain") | list %}\n{% for spec in members %}\n#define IDX_{{ spec.alias }} {{ loop.index0 }}', "rules": ["R4"]}]
+_FORMAT_OLD = ('            self._alias = "{}{}{}".format(\n                "G" if self.is_surface else "",\n                basename,\n'
+               '                "I" * (self.charge + 1) if self.charge >= 0 else "M" * abs(self.charge),\n            )\n')
+BENIGN += [
+    {"name": "alias-joined-from-a-list", "file": SP, "old": _FORMAT_OLD, "new": '            self._alias = "".join([\n                "G" if self.is_surface else "",\n                basename,\n'
+     '                "I" * (self.charge + 1) if self.charge >= 0 else "M" * abs(self.charge),\n            ])\n'},
+    {"name": "alias-by-percent-formatting", "file": SP, "old": _FORMAT_OLD, "new": '            self._alias = "%s%s%s" % (\n                "G" if self.is_surface else "",\n                basename,\n'
+     '                "I" * (self.charge + 1) if self.charge >= 0 else "M" * abs(self.charge),\n            )\n'},
+]
+MUTANTS += [
+    {"name": "alias-joined-without-charge-run", "file": SP, "old": _FORMAT_OLD, "new": '            self._alias = "".join([\n                "G" if self.is_surface else "",\n                basename,\n'
+     '                "I" if self.charge >= 0 else "M" * abs(self.charge),\n            ])\n', "rules": ["R6"]},
+]
